@@ -96,6 +96,9 @@ func c09Options(c *core.Case, sample interface{}) []expr.Option {
 	return opts
 }
 
+// c09Shared is one caller-owned VM reused for every case of the process.
+var c09Shared = &vm.VM{}
+
 func judgeC09(c *core.Case, cfg *core.Config) core.Verdict {
 	spec := c.Env
 	mode := c.Str("mode")
@@ -207,6 +210,18 @@ func judgeC09(c *core.Case, cfg *core.Config) core.Verdict {
 	}
 	if s := dumpProgram(prog); s != progBefore {
 		v.Violation = "the second run modified the program"
+		return v
+	}
+	// and again on one long-lived VM that has run (and failed) many other programs before
+	env3, _ := mkEnv()
+	out3, err3 := vmRun(c09Shared, prog, env3)
+	switch {
+	case (err1 != nil) != (err3 != nil):
+		v.Violation = fmt.Sprintf("the same program on an equal environment: a fresh VM gives %s, a long-lived VM gives %s", runOut{out1, err1, nil}, runOut{out3, err3, nil})
+	case err1 == nil && !core.Exact(out1, out3):
+		v.Violation = fmt.Sprintf("the same program on an equal environment: a fresh VM returns %s, a long-lived VM returns %s", core.Show(out1), core.Show(out3))
+	}
+	if v.Violation != "" {
 		return v
 	}
 	hasAgg := false
